@@ -45,13 +45,14 @@ Theorem C04_method_candidate :
                      fmt_list (pkgo_attach fs AKMethod p recv mn) |}, None).
 Proof. intros fs cur curname p recv mn pos c. exact (pkgo_method_cand_spec fs cur curname (fun _ _ => false) p recv mn pos c). Qed.
 
-(* which nodes produce candidates at all *)
+(* which nodes produce candidates at all: selectors pkg.Name of another package, and plain identifiers (not the selected
+   identifier of a selector) - names of the analysed package, which can never be denied, and names brought in by a dot import *)
 Theorem C04_candidate_nodes :
   forall fs cur curname n c,
     In c (pkgo_cands fs cur curname n) <->
     exists o p, a_obj (n_attrs n) = Some o /\ o_pkg o = Some p /\
                 ((n_kind n = KSelectorExpr /\ p <> cur /\ In c (pkgo_obj_cand fs cur curname o p (n_pos n))) \/
-                 (n_kind n = KIdent /\ p = cur /\ In c (pkgo_obj_cand fs cur curname o cur (n_pos n)))).
+                 (n_kind n = KIdent /\ a_flag (n_attrs n) = false /\ In c (pkgo_obj_cand fs cur curname o p (n_pos n)))).
 Proof. intros fs cur curname n c. exact (pkgo_cands_spec fs cur curname n c). Qed.
 
 Theorem C04_denied :
